@@ -45,6 +45,19 @@ pub struct Pattern {
     pub layout: u8,
     pub n: Field,
     pub kw2: u8,
+    /// letter case in which the (fresh) keywords are REGISTERED: 0 lower, 1 upper, 2 capitalised; a line may spell
+    /// them in any case
+    #[serde(default)]
+    pub kcase: u8,
+}
+
+/// a keyword in a letter case (operator words of a language stay as configured)
+fn cased(i: u8, lang: &str, case: u8) -> String {
+    let w = keyword(i, lang);
+    if i as usize % KEYWORDS.len() >= 8 {
+        return w.to_string();
+    }
+    crate::lines::recase(w, match case % 3 { 0 => 2, 1 => 1, _ => 3 }, 0)
 }
 
 impl Pattern {
@@ -57,8 +70,8 @@ impl Pattern {
         }
     }
     pub fn text(&self, lang: &str) -> String {
-        let kw = keyword(self.kw, lang);
-        let kw2 = keyword(self.kw2, lang);
+        let kw = cased(self.kw, lang, self.kcase);
+        let kw2 = cased(self.kw2, lang, self.kcase);
         let n = Pattern::field(&self.n, "n");
         let k = "{NUMBER:k}";
         match self.layout % 6 {
@@ -75,8 +88,9 @@ impl Pattern {
     }
     /// a line matching the pattern with the given field values
     pub fn line(&self, lang: &str, nv: u32, kv: u32) -> String {
-        let kw = keyword(self.kw, lang);
-        let kw2 = keyword(self.kw2, lang);
+        // the line spells the keywords in a case of its own
+        let kw = cased(self.kw, lang, (nv % 3) as u8);
+        let kw2 = cased(self.kw2, lang, (kv % 3) as u8);
         let n = match self.n {
             Field::Number => format!("{}", nv),
             Field::Percent => format!("{}%", nv),
@@ -598,7 +612,7 @@ impl Prop for Registry {
 // ---- strategies --------------------------------------------------------------------------------
 
 pub fn pattern_strategy() -> impl Strategy<Value = Pattern> {
-    (0u8..10, 0u8..4, prop_oneof![5 => Just(Field::Number), 1 => Just(Field::Percent), 1 => Just(Field::Money), 1 => Just(Field::Text)], 0u8..8).prop_map(|(kw, layout, n, kw2)| Pattern { kw, layout, n, kw2: if kw2 == kw { (kw2 + 1) % 8 } else { kw2 } })
+    (0u8..10, 0u8..4, prop_oneof![5 => Just(Field::Number), 1 => Just(Field::Percent), 1 => Just(Field::Money), 1 => Just(Field::Text)], 0u8..8).prop_map(|(kw, layout, n, kw2)| Pattern { kw, layout, n, kw2: if kw2 == kw { (kw2 + 1) % 8 } else { kw2 }, kcase: (kw2 / 3) % 3 })
 }
 
 pub fn rule_strategy() -> impl Strategy<Value = RuleSpec> {
@@ -606,7 +620,7 @@ pub fn rule_strategy() -> impl Strategy<Value = RuleSpec> {
     prop_oneof![
         9 => (0u8..4, prop::collection::vec(pattern_strategy(), 1..=3), beh).prop_map(|(name, patterns, behaviour)| RuleSpec { name, patterns, behaviour }),
         // a rule whose patterns have no keyword (`{NUMBER:n} {TEXT:t}`): it matches every `number word` line and always declines
-        1 => (0u8..4, prop::collection::vec((4u8..6, any::<bool>()), 1..=2)).prop_map(|(name, ls)| RuleSpec { name, patterns: ls.into_iter().map(|(layout, money)| Pattern { kw: 0, layout, n: if money { Field::Money } else { Field::Number }, kw2: 1 }).collect(), behaviour: Behaviour::DeclineAlways }),
+        1 => (0u8..4, prop::collection::vec((4u8..6, any::<bool>()), 1..=2)).prop_map(|(name, ls)| RuleSpec { name, patterns: ls.into_iter().map(|(layout, money)| Pattern { kw: 0, layout, n: if money { Field::Money } else { Field::Number }, kw2: 1, kcase: 0 }).collect(), behaviour: Behaviour::DeclineAlways }),
     ]
 }
 
@@ -681,7 +695,7 @@ pub fn history_strategy(max: usize) -> impl Strategy<Value = History> {
 }
 
 pub fn regressions() -> Vec<History> {
-    let p = |kw: u8, layout: u8| Pattern { kw, layout, n: Field::Number, kw2: (kw + 1) % 8 };
+    let p = |kw: u8, layout: u8| Pattern { kw, layout, n: Field::Number, kw2: (kw + 1) % 8, kcase: 0 };
     vec![
         // register, probe, delete, probe
         History { ops: vec![Op::AddRule(0, RuleSpec { name: 0, patterns: vec![p(0, 0)], behaviour: Behaviour::Number(5) }), Op::Probe(0, 7, 0), Op::DeleteRule(0, 0), Op::Probe(0, 7, 0), Op::DeleteRule(0, 0)] },
@@ -764,6 +778,85 @@ impl Prop for NameCollision {
     }
 }
 
+// ---- a pattern that is found but declined does not stop the later patterns of the same rule ------------
+
+#[derive(Clone, Debug, Serialize, Deserialize)]
+pub struct TwoPatterns {
+    pub kw: u8,
+    pub c: u8,
+    pub n: u32,
+    /// the generic (declining) pattern is registered first?
+    pub generic_first: bool,
+    pub lang: String,
+}
+
+struct DeclineWhenT(u8);
+impl RuleTrait for DeclineWhenT {
+    fn name(&self) -> String {
+        "twopatterns".to_string()
+    }
+    fn call(&self, _config: &SmartCalcConfig, fields: &BTreeMap<String, TokenType>) -> Option<TokenType> {
+        if fields.contains_key("t") {
+            return None;
+        }
+        let n = field_value(fields, "n")?;
+        Some(TokenType::Number(self.0 as f64 + 2.0 * n, NumberType::Decimal))
+    }
+}
+
+pub struct DeclinedThenAccepted;
+
+impl Prop for DeclinedThenAccepted {
+    type Case = TwoPatterns;
+    fn shrink_iters(&self) -> u32 {
+        100
+    }
+    fn name(&self) -> &'static str {
+        "declined-pattern-then-accepted-pattern"
+    }
+    fn check(&self, w: &mut Worker, c: &TwoPatterns) -> Verdict {
+        let kw = keyword(c.kw % 8, &c.lang);
+        let generic = "{NUMBER:n} {TEXT:t}".to_string();
+        let keyed = format!("{} {{NUMBER:n}}", kw);
+        let patterns = if c.generic_first { vec![generic, keyed] } else { vec![keyed, generic] };
+        // `kw 6 waldo`: the generic pattern finds `6 waldo` and the rule declines it, the keyword pattern finds `kw 6`
+        let line = format!("{} {} waldo", kw, c.n);
+        let rendered = format!("add_rule({}, {:?}, declines when the field t is bound, else Number({} + 2n)); {:?}", c.lang, patterns, c.c, line);
+        let mut calc = build_calc(&Cfg::default());
+        let rule: Rc<dyn RuleTrait> = Rc::new(DeclineWhenT(c.c));
+        match guarded(|| calc.add_rule(c.lang.clone(), patterns.clone(), rule)) {
+            Ok(true) => {}
+            Ok(false) => return Verdict::fail("add_rule returned false for a configured language".into(), rendered),
+            Err(p) => return Verdict::fail(format!("add_rule panicked at {}: {}", p.site, p.message), rendered),
+        }
+        w.count_eval(1);
+        let mut acc = Acc::new();
+        let exp = c.c as f64 + 2.0 * c.n as f64;
+        match eval_on(&calc, &c.lang, &line) {
+            Ok(o) => match o.slots.first() {
+                Some(Slot::Ok { v: V::Num(g, _), .. }) if close(*g, exp) => {}
+                other => acc.fail(format!("{:?} should evaluate to {} (the keyword pattern accepts), got {:?}", line, exp, other.map(|s| s.brief()))),
+            },
+            Err(p) => acc.fail(format!("panic at {}: {}", p.site, p.message)),
+        }
+        acc.finish(rendered).nt(true).class("rule-with-a-declined-and-an-accepted-pattern").class_if(c.generic_first, "declined-pattern-registered-first")
+    }
+}
+
+pub fn two_patterns_table() -> Vec<TwoPatterns> {
+    let mut out = vec![];
+    for kw in 0u8..8 {
+        for (c, n) in [(0u8, 6u32), (5, 1), (9, 250)] {
+            for generic_first in [true, false] {
+                for lang in ["en", "tr"] {
+                    out.push(TwoPatterns { kw, c, n, generic_first, lang: lang.to_string() });
+                }
+            }
+        }
+    }
+    out
+}
+
 pub fn collision_table() -> Vec<Collision> {
     let mut out = vec![];
     for family in ["aardvark", "cooking", "clock", "kitchen", "zoo", "memory2"] {
@@ -797,12 +890,14 @@ pub fn run(ctx: &Ctx) {
     };
     ctx.run_generated(&Registry, ctx.tier.pick(1_000, 20_000), || history_strategy(max));
     ctx.run_table(&NameCollision, "name-collisions", collision_table(), true);
+    ctx.run_table(&DeclinedThenAccepted, "two-patterns", two_patterns_table(), true);
 }
 
 pub fn replay(w: &mut Worker, sub: &str, case: &serde_json::Value) -> Option<Verdict> {
     match sub {
         "registry-history" => crate::engine::replay_case(&Registry, w, case),
         "family-reusing-a-built-in-unit-name" => crate::engine::replay_case(&NameCollision, w, case),
+        "declined-pattern-then-accepted-pattern" => crate::engine::replay_case(&DeclinedThenAccepted, w, case),
         _ => None,
     }
 }
